@@ -38,6 +38,7 @@ def main():
         cov = core.start_source_coverage(prop, tier)
         try:
             mod.run(ctx)
+            core.extra_seeds_if_source_changed(ctx, mod, prop)
         finally:
             core.stop_source_coverage(cov, ctx, prop)
         return core.finish(ctx, obligations, discharged, axioms, pf, build_s,
